@@ -12,26 +12,40 @@ from .lib_fm import V, N, R, op, call, el, rng_, assign, decl, unit, NONE
 
 # ----------------------------------------------------------------------------- C29: ASSOCIATE programs
 class AssocGen(F.Gen):
-    """Nested ASSOCIATE blocks (up to `max_depth` deep) over scalars, array elements, whole arrays and
-    expressions.
+    """Nested ASSOCIATE blocks (up to `max_depth` deep) over scalar variables, array elements, whole arrays
+    and expressions.  The knobs select a *population* (a syntactic class of programs), so that a defect
+    of one class cannot hide the behaviour on the others:
 
-    selectors = 'stable':   everything a selector mentions (operands of an expression selector, the
-                            subscripts of an element selector) keeps its value inside the block, so
-                            evaluating the selector on entry (Fortran) and at every use (textual
-                            replacement) cannot be told apart.
-    selectors = 'volatile': expression selectors mention variables the block may define.
-    whole = True adds whole-array selectors (`z => ia`, used as z(i) / z(lo:hi) / z inside the block)."""
+    volatile     False: whatever a selector mentions (operands of an expression selector, subscripts of an
+                 element selector) is defined nowhere inside the OUTERMOST enclosing associate block
+                 (intent(in) dummies, literals, loop variables of loops around that block), so binding on
+                 entry (Fortran), at every use (textual replacement) and on entry of an enclosing block
+                 (merging) cannot be told apart.  True: selectors mention anything.
+    expr         expression selectors are generated
+    unique       associate names are unique in the routine (False: sibling blocks reuse names)
+    dependent    every nested block has at least one selector that mentions a name of its parent block
+    subdep       element selectors whose SUBSCRIPT mentions a name of an enclosing block
+    print_names  PRINT statements may mention associate names
+    whole        whole-array selectors (`z => ia`, used as z(i) / z(lo:hi) / z inside the block)"""
 
-    def __init__(self, rng, features=(), selectors='stable', whole=False, max_depth=3, print_names=False):
+    def __init__(self, rng, features=(), volatile=False, expr=True, unique=True, dependent=True, subdep=False,
+                 print_names=False, whole=True, max_depth=3):
         super().__init__(rng, features)
-        self.selectors = selectors
-        self.print_names = print_names   # PRINT statements may mention associate names
+        self.volatile = volatile
+        self.expr = expr
+        self.unique = unique
+        self.dependent = dependent
+        self.subdep = subdep
+        self.print_names = print_names
         self.whole = whole
         self.max_depth = max_depth
         self.arr_alias = []          # associate names currently bound to the whole array ia
+        self.counter = 0
+        self.levels = []             # per open block: dict(scal=[names usable as integer scalars], ro=[read-only stable ones], arr=[..])
+        self.outer_loops = []
 
     def stmt(self, d):
-        if 'assoc' in self.f and self.assoc_depth < self.max_depth and self.rng.random() < (0.3 if self.assoc_depth else 0.2):
+        if 'assoc' in self.f and self.assoc_depth < self.max_depth and self.rng.random() < (0.35 if self.assoc_depth else 0.2):
             return self.assoc_stmt(d)
         out = super().stmt(d)
         if not self.print_names and self.assoc_names:
@@ -53,53 +67,128 @@ class AssocGen(F.Gen):
             lo, hi = self.arrays['ia'][0]
             r = self.rng.random()
             if r < 0.4:
-                return [assign(V(z), op('sum', V(z), self.int_leaf(self.int_scalars_noarr)))]
+                return [assign(V(z), _m(op('sum', V(z), self.int_leaf(self.int_scalars_noarr))))]
             if r < 0.7:
-                return [assign(el(z, rng_(N(lo), N(hi - 1))), op('prod', el(z, rng_(N(lo + 1), N(hi))), N(2)))]
+                return [assign(el(z, rng_(N(lo), N(hi - 1))), _m(op('prod', el(z, rng_(N(lo + 1), N(hi))), N(2))))]
             return [assign(el(z, rng_(N(lo + 1), N(hi))), call('mod', op('sum', el('ia', rng_(N(lo + 1), N(hi))), N(1)), N(7)))]
         return super().section_stmt()
 
+    def stable_sub(self):
+        """A subscript of ia that nothing inside the outermost block defines."""
+        lo, hi = self.arrays['ia'][0]
+        cands = [v for v in self.outer_loops if v != 'w' and self.loop_range[v][0] >= lo and self.loop_range[v][1] <= hi]
+        if cands and self.rng.random() < 0.5:
+            return V(self.rng.choice(cands))
+        return N(self.rng.randint(lo, hi))
+
     def assoc_stmt(self, d):
         rng = self.rng
-        base = len(self.assoc_names)
-        names, targets, wr, rd, arrs = [], [], [], [], []
-        for i in range(rng.choice([1, 2, 2, 3])):
-            nm = f'z{base + i + 1}'
+        if self.assoc_depth == 0:
+            self.outer_loops = list(self.active_loops)
+        names, targets = [], []
+        lvl = dict(scal=[], ro=[], arr=[], wr=[])
+        parent = self.levels[-1] if self.levels else None
+        npairs = rng.choice([1, 2, 2, 3])
+        want_dep = self.dependent and parent is not None
+        for i in range(npairs):
+            if self.unique:
+                self.counter += 1
+                nm = f'z{self.counter}'
+            else:
+                nm = f'z{self.assoc_depth * 3 + i + 1}'
             r = rng.random()
             writable = [v for v in self.int_writable if v not in self.active_loops]
-            if self.whole and r < 0.2:
+            kind = 'arr' if self.whole and r < 0.2 else 'var' if r < 0.45 else 'elem' if r < 0.75 else 'expr' if self.expr else 'rovar'
+            if want_dep and i == 0:
+                # a selector that mentions a name of the parent block
+                opts = []
+                if parent['wr']:
+                    opts.append('var')
+                if parent['ro']:
+                    opts.append('rovar')
+                    if self.expr:
+                        opts.append('expr')
+                    if self.subdep:
+                        opts += ['sub', 'sub']
+                if parent['arr']:
+                    opts += ['arr', 'elem']
+                if not opts:
+                    kind = 'none'
+                else:
+                    kind = rng.choice(opts)
+                    if kind == 'var':
+                        t = V(rng.choice(parent['wr']))
+                        lvl['wr'].append(nm)
+                        lvl['scal'].append(nm)
+                    elif kind == 'rovar':
+                        t = V(rng.choice(parent['ro']))
+                        lvl['ro'].append(nm)
+                        lvl['scal'].append(nm)
+                    elif kind == 'expr':
+                        t = op('sum', V(rng.choice(parent['ro'])), N(rng.choice([1, 2])))
+                        lvl['ro'].append(nm)
+                        lvl['scal'].append(nm)
+                    elif kind == 'sub':
+                        t = el('ia', call('mod', call('abs', V(rng.choice(parent['ro']))), N(5)))
+                        lvl['wr'].append(nm)
+                        lvl['scal'].append(nm)
+                    elif kind == 'arr':
+                        t = V(rng.choice(parent['arr']))
+                        lvl['arr'].append(nm)
+                    else:
+                        t = el(rng.choice(parent['arr']), self.stable_sub())
+                        lvl['wr'].append(nm)
+                        lvl['scal'].append(nm)
+                    names.append(nm)
+                    targets.append(t)
+                    continue
+            if kind == 'arr':
                 t = V('ia') if not self.arr_alias or rng.random() < 0.5 else V(rng.choice(self.arr_alias))
-                arrs.append(nm)
-            elif r < 0.45:
-                t = V(rng.choice(writable))
-                wr.append(nm)
-                rd.append(nm)
-            elif r < 0.75:
-                t = el('ia', self.index('ia', 0, self.int_scalars, simple=True))
-                wr.append(nm)
-                rd.append(nm)
+                lvl['arr'].append(nm)
+            elif kind == 'var':
+                if rng.random() < 0.3:
+                    t = V(rng.choice(['n', 'm']))          # a read-only entity
+                    lvl['ro'].append(nm)
+                else:
+                    t = V(rng.choice(writable))
+                    lvl['wr'].append(nm)
+                lvl['scal'].append(nm)
+            elif kind == 'rovar':
+                t = V(rng.choice(['n', 'm']))
+                lvl['ro'].append(nm)
+                lvl['scal'].append(nm)
+            elif kind == 'elem':
+                if self.volatile:
+                    t = el('ia', self.index('ia', 0, self.int_scalars, simple=rng.random() < 0.6))
+                elif self.subdep and self.levels and any(l['ro'] for l in self.levels) and rng.random() < 0.5:
+                    t = el('ia', call('mod', call('abs', V(rng.choice([x for l in self.levels for x in l['ro']]))), N(5)))
+                else:
+                    t = el('ia', self.stable_sub())
+                lvl['wr'].append(nm)
+                lvl['scal'].append(nm)
             else:
-                if self.selectors == 'stable':
-                    # only entities that nothing inside the block can define: intent(in) dummies, enclosing
-                    # loop variables, literals
-                    pool = ['n', 'm'] + [v for v in self.active_loops if v != 'w']
+                if not self.volatile:
+                    pool = ['n', 'm'] + [v for v in self.outer_loops if v != 'w'] + [x for l in self.levels for x in l['ro']]
                     a = V(rng.choice(pool))
                     b = V(rng.choice(pool)) if rng.random() < 0.5 else N(rng.choice([1, 2, 3]))
-                    t = rng.choice([op('sum', a, b), op('prod', a, b), op('sum', a, op('neg', b)),
-                                    call('mod', op('sum', a, N(7)), N(3)), op('par', op('sum', a, b))])
+                    t = rng.choice([op('sum', a, b), op('prod', a, N(rng.choice([2, 3]))), op('sum', a, op('neg', b)),
+                                    call('mod', op('sum', a, N(7)), N(3)), op('par', op('sum', a, b)), N(rng.randint(0, 4))])
+                    lvl['ro'].append(nm)
                 else:
                     t = op('sum', self.int_expr(1, self.int_scalars), N(1))
-                rd.append(nm)
+                lvl['scal'].append(nm)
             names.append(nm)
             targets.append(t)
         saved = (list(self.int_writable), list(self.int_scalars), list(self.arr_alias))
         self.assoc_names += names
-        self.int_writable = self.int_writable + wr
-        self.int_scalars = self.int_scalars + rd
-        self.arr_alias = self.arr_alias + arrs
+        self.int_writable = self.int_writable + lvl['wr'] * 2     # twice: bias towards using the names
+        self.int_scalars = self.int_scalars + lvl['scal'] * 3
+        self.arr_alias = self.arr_alias + lvl['arr']
+        self.levels.append(lvl)
         self.assoc_depth += 1
         body = self.block(d - 1, rng.randint(1, 3))
         self.assoc_depth -= 1
+        self.levels.pop()
         self.int_writable, self.int_scalars, self.arr_alias = saved
         for _ in names:
             self.assoc_names.pop()
